@@ -197,6 +197,27 @@ func C07(tier common.Tier) int {
 						if !ok {
 							continue
 						}
+						// every second variant additionally carries inert markers (unknown code) at both ends of every file:
+						// they suppress nothing, but the package then holds several scoped markers around the one under test
+						if idx%2 == 0 {
+							for _, f := range nb.Files {
+								first, last := -1, -1
+								for li, l := range f.Lines {
+									t := strings.TrimSpace(l.Text)
+									if t == "" || strings.HasPrefix(t, "//") || strings.Contains(t, "//") || strings.HasPrefix(t, "package ") || strings.HasPrefix(t, "import ") || t == "}" || t == ")" {
+										continue
+									}
+									if first < 0 {
+										first = li
+									}
+									last = li
+								}
+								if first >= 0 && last > first {
+									f.Lines[first].Text += " // @ignore ZZZ9"
+									f.Lines[last].Text += " // @ignore ZZZ8, ZZZ9"
+								}
+							}
+						}
 						got, vres := runIg(nb)
 						if vres.Panic != "" || len(vres.Errs) > 0 {
 							run.Report(common.Cex{Sig: fmt.Sprintf("crash|placement=%s|list=%s", pl, l.name), Summary: "analysis crashes with an @ignore comment: " + vres.Panic,
